@@ -98,6 +98,10 @@ func HistoricalLookup(account types.ServiceAccount, timestamp types.TimeSlot, ha
 			∀a ∈ A ∶  E(↕a_meta,a_code) ≡⎧ a_p[a_codeHash] if a_codeHash ∈ a_p
 			                             ⎨ ∅               otherwise
 		*/
+		if bytes == nil {
+			// the empty preimage is stored as a nil slice by the codec; it is a value, not "nothing"
+			return types.ByteSequence{}
+		}
 		return bytes
 	}
 
